@@ -221,7 +221,8 @@ Definition index_set (s : coll) (c : N) : option (gset N) :=
 
 Inductive fop :=
 | FWith (c : N) | FWithout (c : N) | FUnion (c : N) | FWithUnion (cs : list N)
-| FPred (c : N) (p : vpred).
+| FPred (c : N) (p : vpred)
+| FEmpty.                       (* a typed filter on a column of the wrong kind empties the selection *)
 
 Definition pred_set (s : coll) (c : N) (p : vpred) : option (gset N) :=
   match cols s !! c with
@@ -254,6 +255,7 @@ Definition do_fop (s : coll) (t : txn) (f : fop) : txn :=
              else set_sel t (x ∩ union_sets s cs)
       end
   | FPred c p => set_sel t (match pred_set s c p with Some y => x ∩ y | None => ∅ end)
+  | FEmpty => set_sel t ∅
   end.
 
 (* ---- aggregates (column_numeric.go Sum/Min/Max over selection ∩ presence) ---- *)
